@@ -65,6 +65,7 @@ impl<const N: usize> Sodg<N> {
         let vtx1 = self.vertices.get_mut(v1).unwrap();
         vtx1.edges.insert(a, v2);
         if ours == BRANCH_STATIC {
+            let unread1 = vtx1.persistence == Persistence::Stored;
             if theirs == BRANCH_STATIC {
                 for b in self.branches.iter_mut() {
                     if b.1.is_empty() {
@@ -74,17 +75,25 @@ impl<const N: usize> Sodg<N> {
                         break;
                     }
                 }
-                self.vertices.get_mut(v2).unwrap().branch = ours;
+                let vtx2 = self.vertices.get_mut(v2).unwrap();
+                vtx2.branch = ours;
+                let unread2 = vtx2.persistence == Persistence::Stored;
                 self.branches.get_mut(ours).unwrap().push(v2);
+                if ours != BRANCH_STATIC {
+                    *self.stores.get_mut(ours).unwrap() += usize::from(unread1) + usize::from(unread2);
+                }
             } else {
                 vtx1.branch = theirs;
                 self.branches.get_mut(theirs).unwrap().push(v1);
+                *self.stores.get_mut(theirs).unwrap() += usize::from(unread1);
             }
         } else {
             let vtx2 = self.vertices.get_mut(v2).unwrap();
             if vtx2.branch == BRANCH_STATIC {
                 vtx2.branch = ours;
+                let unread2 = vtx2.persistence == Persistence::Stored;
                 self.branches.get_mut(ours).unwrap().push(v2);
+                *self.stores.get_mut(ours).unwrap() += usize::from(unread2);
             }
         }
         #[cfg(debug_assertions)]
@@ -120,7 +129,9 @@ impl<const N: usize> Sodg<N> {
         let vtx = self.vertices.get_mut(v).unwrap();
         vtx.persistence = Persistence::Stored;
         vtx.data = d.clone();
-        *self.stores.get_mut(vtx.branch).unwrap() += 1;
+        if vtx.branch != BRANCH_STATIC {
+            *self.stores.get_mut(vtx.branch).unwrap() += 1;
+        }
         #[cfg(debug_assertions)]
         trace!("#put: data of ν{v} set to {d}");
     }
